@@ -716,7 +716,14 @@ func (w *World) addDirectives(ds []rawDirective, pkg *packages.Package) error {
 				case "opt":
 					fs := strings.Fields(s.text)
 					if len(fs) >= 1 {
-						c.Opts[fs[0]] = strings.Join(fs[1:], " ")
+						v := strings.Join(fs[1:], " ")
+						if v == "" {
+							v = "yes"
+						}
+						if old := c.Opts[fs[0]]; old != "" {
+							v = old + " " + v
+						}
+						c.Opts[fs[0]] = v
 					}
 				}
 			}
